@@ -52,6 +52,7 @@ CliResult CliEnv::run(const Plan &p, const Bytes &arch) {
 	src.data = &arch;
 	src.trunc = p.geti("trunc", -1);
 	src.errat = p.geti("errat", -1);
+	src.endless = (int) p.geti("endless", 0);
 	src.mtime = p.geti("amtime", 946684800);
 	g_sim.archive_src = &src;
 	g_sim.archive_ino = p.gets("arcname").empty() ? fs.lookup("/w/a.lzh") : fs.lookup(p.gets("cwd", "/w/x/y/root") + "/" + p.gets("arcname"));
